@@ -96,6 +96,22 @@ pub mod rayon {
                 self.into_iter()
             }
         }
+        pub trait IntoParallelRefIterator<'a> {
+            type Iter: Iterator;
+            fn par_iter(&'a self) -> Self::Iter;
+        }
+        impl<'a, T: 'a> IntoParallelRefIterator<'a> for Vec<T> {
+            type Iter = std::slice::Iter<'a, T>;
+            fn par_iter(&'a self) -> Self::Iter {
+                self.iter()
+            }
+        }
+        impl<'a, T: 'a> IntoParallelRefIterator<'a> for [T] {
+            type Iter = std::slice::Iter<'a, T>;
+            fn par_iter(&'a self) -> Self::Iter {
+                self.iter()
+            }
+        }
     }
 }
 
@@ -187,8 +203,25 @@ pub mod self_encryption {
         }
     }
 
-    fn image(piece: &[u8]) -> Vec<u8> {
-        piece.iter().map(|b| b ^ 0x5a).collect()
+    /// As in the real crate, the key material of chunk i is derived from the hashes of source pieces i, i-1 and i-2
+    /// (cyclically): equal pieces with different neighbours give different chunks at different addresses.
+    fn pad_of(src: &[XorName], i: usize) -> [u8; 32] {
+        let n = src.len();
+        let mut m = Vec::with_capacity(96);
+        m.extend_from_slice(&src[i].0);
+        m.extend_from_slice(&src[(i + n - 1) % n].0);
+        m.extend_from_slice(&src[(i + n - 2) % n].0);
+        XorName::from_content(&m).0
+    }
+    fn image(piece: &[u8], pad: &[u8; 32]) -> Vec<u8> {
+        piece.iter().zip(pad.iter().cycle()).map(|(b, p)| b ^ p ^ 0x5a).collect()
+    }
+
+    /// sizes of the pieces a source of `len` bytes is cut into
+    pub fn piece_sizes(len: usize) -> Vec<usize> {
+        let n = std::cmp::max(3, (len + PIECE - 1) / PIECE);
+        let (base, rem) = (len / n, len % n);
+        (0..n).map(|index| base + usize::from(index < rem)).collect()
     }
 
     pub fn encrypt(bytes: Bytes) -> Result<(DataMap, Vec<EncryptedChunk>)> {
@@ -202,14 +235,18 @@ pub mod self_encryption {
         let mut chunks = vec![];
         let mut at = 0;
         ENCRYPT_CALLS.with(|c| c.set(c.get() + 1));
+        let mut pieces: Vec<&[u8]> = vec![];
         for index in 0..n {
             // the remainder is spread over the first pieces, so that every piece stays within PIECE
             let size = base + usize::from(index < rem);
-            let piece = &bytes[at..at + size];
+            pieces.push(&bytes[at..at + size]);
             at += size;
-            let content = image(piece);
+        }
+        let src: Vec<XorName> = pieces.iter().map(|p| XorName::from_content(p)).collect();
+        for (index, piece) in pieces.iter().enumerate() {
+            let content = image(piece, &pad_of(&src, index));
             assert!(content.len() <= PIECE, "ideal self-encryption: piece within the model's chunk size");
-            infos.push(ChunkInfo { index, dst_hash: XorName::from_content(&content), src_hash: XorName::from_content(piece), src_size: size });
+            infos.push(ChunkInfo { index, dst_hash: XorName::from_content(&content), src_hash: src[index], src_size: piece.len() });
             chunks.push(EncryptedChunk { index, content: Bytes::from(content) });
         }
         Ok((DataMap(infos), chunks))
@@ -221,12 +258,13 @@ pub mod self_encryption {
     pub fn decrypt_full_set(data_map: &DataMap, chunks: &[EncryptedChunk]) -> Result<Bytes> {
         let mut sorted: Vec<&EncryptedChunk> = chunks.iter().collect();
         sorted.sort_by_key(|c| c.index);
+        let src: Vec<XorName> = data_map.0.iter().map(|i| i.src_hash).collect();
         let mut out = Vec::with_capacity(data_map.file_size());
         for c in sorted {
             if c.index >= data_map.0.len() {
                 return Err(Error::Generic(format!("chunk index {} outside the data map", c.index)));
             }
-            out.extend_from_slice(&image(&c.content));
+            out.extend_from_slice(&image(&c.content, &pad_of(&src, c.index)));
         }
         Ok(Bytes::from(out))
     }
